@@ -915,6 +915,21 @@ type callable struct {
 	vars   []reflect.Value // non-local (global and closure) variables.
 }
 
+// isNil reports whether c represents a nil function value. A nil function
+// value is represented by a callable whose native function has a nil value.
+func (c *callable) isNil() bool {
+	if c == nil {
+		return true
+	}
+	if c.fn != nil {
+		return false
+	}
+	if c.native != nil {
+		return c.native.value.Kind() == reflect.Func && c.native.value.IsNil()
+	}
+	return c.value.Kind() == reflect.Func && c.value.IsNil()
+}
+
 // Native returns the native function of a callable.
 func (c *callable) Native() *NativeFunction {
 	if c.native != nil {
